@@ -78,6 +78,7 @@ type MemCtx struct {
 	// facts produced on demand while reading base memories (validity of stored
 	// pointers / slices); drained by the encoder
 	onBaseRead func(base *MemNode, obj, off, val *Term)
+	baseBounds map[string]*Term // base memory name -> every reference stored in it is an object id below this
 }
 
 func NewMemCtx(tb *TB) *MemCtx {
@@ -92,7 +93,14 @@ func (mc *MemCtx) node(n *MemNode) *MemNode {
 
 func (mc *MemCtx) NewBase(prefix string, s Sort, objBound *Term) *MemNode {
 	mc.nbase++
-	return mc.node(&MemNode{kind: mBase, sort: s, name: fmt.Sprintf("%s_%s_%d", prefix, s.Key(), mc.nbase), objBound: objBound})
+	n := mc.node(&MemNode{kind: mBase, sort: s, name: fmt.Sprintf("%s_%s_%d", prefix, s.Key(), mc.nbase), objBound: objBound})
+	if objBound != nil {
+		if mc.baseBounds == nil {
+			mc.baseBounds = map[string]*Term{}
+		}
+		mc.baseBounds[n.name] = objBound
+	}
+	return n
 }
 
 func (mc *MemCtx) Store(prev *MemNode, obj, off, val *Term) *MemNode {
